@@ -134,7 +134,7 @@ def chunk_coq(ch, fid):
 
 def colcase_coq(ci, ser):
     fid = {f: i for i, f in enumerate(ser["fields"])}
-    return "mkcc %d%%nat %s %s %s" % (ci["maxrows"], coq_list([coq_n(i) for i in range(len(ser["fields"]))]),
+    return "mkcc %d%%nat %d%%nat %s %s %s" % (ci["maxrows"], ci.get("seglimit") or 0, coq_list([coq_n(i) for i in range(len(ser["fields"]))]),
                                       coq_list([chunk_coq(c, fid) for c in ser["in"]]),
                                       coq_list([chunk_coq(c, fid) for c in ser["out"] or []]))
 
@@ -143,7 +143,11 @@ COLCODES = {50: "an input chunk is not well-formed (inner segment shorter/longer
             51: "the series was not written into exactly one output chunk",
             52: "time segments written by the compaction differ from the model (ColModel.compact_col)",
             53: "a column's segments written by the compaction differ from the model (cells lost / shifted / padded differently)",
-            54: "the output chunk has a column that no input chunk has", 55: "the output chunk is not well-formed"}
+            54: "the output chunk has a column that no input chunk has", 55: "the output chunk is not well-formed",
+            56: "segment limit: the time segments of the series in the output files differ from the model (ColLimModel.compact_col_lim: file "
+                "boundaries, resume position or carried rows)",
+            57: "segment limit: a column's segments in the output files differ from the model (cells lost / shifted at a file boundary)",
+            58: "segment limit: an output file holds more segments of the series than max-segment-limit"}
 
 
 # ---------- fault-injection cases ----------
@@ -489,7 +493,7 @@ def main(ck):
     # ---- column-level model evaluation (compactions outside the segment-limit cases) ----
     colmod = []
     for ci in cols:
-        if ci.get("seglimit") or ci.get("died") or ci.get("fail") or ci["op"] == "merge":
+        if ci.get("died") or ci.get("fail") or ci["op"] == "merge":
             continue
         if ci.get("illformed") and ci.get("mode") != "stream":
             continue    # the non-streaming path re-cuts every record; the code-shaped model is the streaming compactor
@@ -505,7 +509,35 @@ def main(ck):
                "Definition cases : list colcase := [\n%s\n].\n"
                "Definition M := Eval vm_compute in col_mismatches cases.\nPrint M.\n") % ";\n".join(colcase_coq(a, b) for a, b in chunk)
         cfiles.append(("c03col%d" % (i // cshard), txt))
+    # canaries (fail closed): copies of a real case with one observed time value changed MUST all come back as mismatches -
+    # one canary for the plain comparison, one for the segment-limit comparison
+    import copy
+    NCAN = 12
+    ncanary = 0
+    for want_limit in (False, True):
+        src = next(((a, b) for a, b in colmod if bool(a.get("seglimit")) == want_limit and b.get("out") and b["out"][0]["t"]
+                    and b["out"][0]["t"][0]), None)
+        if src is None:
+            if ok and colmod and not ck.replay and (not want_limit or nseg > 0):
+                ck.broken.append("C03 column canary: no %s case to build the corrupted copy from" % ("segment-limit" if want_limit else "plain"))
+            continue
+        bad = copy.deepcopy(src[1])
+        bad["out"][0]["t"][0][0] += 1
+        cfiles.append(("c03colcanary%d" % ncanary,
+                       ("From Coq Require Import NArith ZArith List Bool. From OG Require Import C03.ColModel C03.ColCorr.\n"
+                        "Import ListNotations. Open Scope N_scope.\n"
+                        "Definition cases : list colcase := [\n%s\n].\n"
+                        "Definition M := Eval vm_compute in col_mismatches cases.\nPrint M.\n") % ";\n".join([colcase_coq(src[0], bad)] * NCAN)))
+        ncanary += 1
     cres = ck.coq_eval_many(cfiles) if ok and cfiles else []
+    if ok and cfiles and len(cres) != len(cfiles):
+        ck.broken.append("column model evaluation: %d results for %d files" % (len(cres), len(cfiles)))
+    for _ in range(ncanary if len(cres) == len(cfiles) else 0):
+        rc2, o = cres.pop()
+        tups = eval_tuples(o, rc2, 3)
+        if tups is None or {t[0] for t in tups} != set(range(NCAN)):
+            ck.broken.append("C03 column canary: a corrupted case was not reported by the column model evaluation (read back: %s)"
+                             % (o[-300:] if tups is None else sorted(tups)[:NCAN]))
     colmism = []
     col_current = 0
     for idx, (rc2, o) in enumerate(cres):
@@ -540,7 +572,31 @@ def main(ck):
                "Definition cases : list fcase := [\n%s\n].\n"
                "Definition M := Eval vm_compute in fmismatches cases.\nPrint M.\n") % ";\n".join(t for _, t, _ in chunk)
         ffiles.append(("c03fault%d" % (i // fshard), txt))
+    # canary (fail closed): copies of a fault case whose fault-free run reports a shortened live list MUST all be reported
+    fcanary = False
+    fsrc = next((fi for fi, _, _ in fmod if (fi["runs"][0].get("live") or [])), None)
+    if fsrc is not None:
+        badf = copy.deepcopy(fsrc)
+        badf["runs"][0]["live"] = badf["runs"][0]["live"][1:]
+        t = fault_case_coq(badf)
+        if t:
+            fcanary = True
+            ffiles.append(("c03faultcanary", ("From Coq Require Import NArith ZArith List Bool. From OG Require Import C03.Model C03.FaultModel C03.FaultCorr.\n"
+                                              "Import ListNotations. Open Scope N_scope.\n"
+                                              "Definition cases : list fcase := [\n%s\n].\n"
+                                              "Definition M := Eval vm_compute in fmismatches cases.\nPrint M.\n") % ";\n".join([t[0]] * NCAN)))
+    if ok and fmod and not fcanary and not ck.replay:
+        ck.broken.append("C03 fault canary: no fault case to build the corrupted copy from")
     fres = ck.coq_eval_many(ffiles) if ok and ffiles else []
+    if ok and ffiles and len(fres) != len(ffiles):
+        ck.broken.append("fault model evaluation: %d results for %d files" % (len(fres), len(ffiles)))
+        fcanary = False
+    if fcanary:
+        rc2, o = fres.pop()
+        tups = eval_tuples(o, rc2, 4)
+        if tups is None or {t[0] for t in tups} != set(range(NCAN)):
+            ck.broken.append("C03 fault canary: a corrupted case was not reported by the fault model evaluation (read back: %s)"
+                             % (o[-300:] if tups is None else sorted(tups)[:NCAN]))
     fmism = []
     f_current = 0
     for idx, (rc2, o) in enumerate(fres):
@@ -600,6 +656,7 @@ def main(ck):
     ck.cov["distinct_nontrivial"] = len(nontriv) + len(col_nontriv)
     ck.cov["column_cases"] = {"operations": len(cols), "histogram": colhist, "series_compared_with_column_model": len(colmod),
                               "series_with_a_multi_segment_chunk_lacking_a_column": len(col_nontriv),
+                              "series_split_over_several_files_compared_with_limit_model": len([1 for a, b in colmod if a.get("seglimit") and len(b.get("out") or []) > 1]),
                               "model_mismatches": len(colmism), "series_matching_counter_padding_only": col_current,
                               "known_finding_failures": col_known,
                               "process_deaths_inside_known_finding_signature": col_died_known}
